@@ -174,3 +174,93 @@ Example report_examples :
   map (fun p => (fst p, lookup (fst p) (map (fun f => (fst f, malformed (snd f))) shipped_schema_json)))
       known_malformed = map (fun p => (fst p, Some [snd p])) known_malformed.
 Proof. vm_compute. repeat split. Qed.
+
+(* ================================================================================================ *)
+(* ---- (e) typed documents have the published shape ----
+   What the library writes for a registered Go type (Marshal/Typed.v: `reenc`, type descriptors regenerated
+   by reflection into Gen/GoTypes.v) has, STRUCTURALLY, the shape the published schema of that type allows
+   (Gen/Schemas.v, translated from data/schemas on every run):
+     (S1) every member a struct writes is a member the schema declares - `shaped` reads a schema object that
+          lists `properties` (and has neither patternProperties nor additionalProperties) as closed, so
+          `additionalProperties: false` could be added to the published schemas without rejecting anything
+          written at these types, and no member is misspelled or left over after a regeneration;
+     (S2) every written value has a JSON type the schema allows at its place, recursively through $ref,
+          allOf, properties, patternProperties / additionalProperties (maps), items (slices), pointers.
+   Value-level keywords (pattern, format, enum/const, required, minLength/maxLength, oneOf/anyOf) are
+   ignored here: they stay with the sweep.  The data theorems are re-checked by vm_compute against the
+   regenerated tables: a Go member added, renamed or retyped without regenerating the schema (or the
+   reverse) breaks them.
+   Stated limits: trees with a null directly inside an array are excluded (null_clean; the reader of
+   documents rejects them); cbc.Definition is recursive and it and the three registry types containing it
+   are not covered (shape_unchecked); a schema.Object member is only known to be an object (its payload is
+   covered as a registered type of its own, but the `$schema` member the wrapper adds is NOT declared by the
+   payload's schema).  Lax reading: trees without null members.  Strict reading: a nil pointer / slice / map
+   member without omitempty is written as null, no shipped schema allows null: holds for the types without
+   such a member, the others are listed (shape_null_members, with the members in Schema/ShapeShipped.v). *)
+From Verif Require Import Marshal.Typed Marshal.Wf Marshal.Env Schema.Shape Schema.ShapeProofs
+  Schema.ShapeShipped Schema.ShapeShippedDataProofs Schema.ShapeShippedProofs Gen.GoTypes.
+
+(* the boolean shape check means the relation *)
+Theorem shape_check_sound e fuel base s v : shape_ok e fuel base s v = true -> shaped e base s v.
+Proof. exact (shape_ok_sound e fuel base s v). Qed.
+Print Assumptions shape_check_sound.
+
+(* every tree the model writes at a well-formed type is a tree the type `writes`: members are declared
+   fields written at the field's type, an omitempty nilable field is never null, leaves write their kind *)
+Theorem written_trees_follow_the_type E fuel t j v :
+  env_wfb E = true -> ty_wfb t = true -> reenc E fuel t j = Ok v -> writes (e_types E) t v.
+Proof. exact (fun WF => reenc_writes E WF fuel t j v). Qed.
+Print Assumptions written_trees_follow_the_type.
+
+(* the checker's meaning: if it accepts (type, schema), every tree the type writes is shaped by the schema *)
+Theorem shape_checker_sound strict types e fuel nl t base s v :
+  shape_conforms strict types e fuel nl t base s = true ->
+  writes types t v -> (nl = true \/ v <> Typed.TNull) -> null_clean strict v = true ->
+  shaped e base s v.
+Proof. exact (shape_conforms_sound strict types e fuel nl t base s v). Qed.
+Print Assumptions shape_checker_sound.
+
+(* the data theorems over the regenerated tables *)
+Theorem registered_types_conform_to_their_schemas_partial :
+  go_shape_conforms false shape_unchecked = true.
+Proof. exact go_shapes_conform_partial. Qed.
+Print Assumptions registered_types_conform_to_their_schemas_partial.
+
+Theorem registered_types_conform_with_written_nulls_partial :
+  go_shape_conforms true (shape_unchecked ++ shape_null_members) = true.
+Proof. exact go_shapes_conform_strict_partial. Qed.
+Print Assumptions registered_types_conform_with_written_nulls_partial.
+
+(* the listed exceptions of the strict reading do fail: a nil required member is written as null *)
+Theorem types_with_nilable_required_members_do_not_conform :
+  forallb (fun id => match assoc id go_schemas with
+                     | Some t => negb (shape_conforms_id true go_types shipped_env shape_fuel id t)
+                     | None => false
+                     end) shape_null_members = true.
+Proof. exact go_null_members_fail. Qed.
+Print Assumptions types_with_nilable_required_members_do_not_conform.
+
+(* what is written for a registered type has the published shape *)
+Theorem typed_documents_have_published_shape_partial id j v :
+  ~ In id shape_unchecked ->
+  reenc_schema id j = Ok v -> v <> Typed.TNull -> null_clean false v = true ->
+  shaped_id shipped_env id v.
+Proof. exact (written_documents_shaped_partial id j v). Qed.
+Print Assumptions typed_documents_have_published_shape_partial.
+
+Theorem typed_documents_have_published_shape_with_nulls_partial id j v :
+  ~ In id (shape_unchecked ++ shape_null_members) ->
+  reenc_schema id j = Ok v -> v <> Typed.TNull -> null_clean true v = true ->
+  shaped_id shipped_env id v.
+Proof. exact (written_documents_shaped_strict_partial id j v). Qed.
+Print Assumptions typed_documents_have_published_shape_with_nulls_partial.
+
+(* non-vacuity: a note.Message is read (an unknown member is dropped, members are written in declaration
+   order), satisfies the hypotheses, and has the shape; an undeclared member and an ill-typed one have not *)
+Example typed_shape_example :
+  reenc_schema msg_id msg_in = Ok msg_out /\ ~ In msg_id shape_unchecked /\
+  msg_out <> Typed.TNull /\ null_clean false msg_out = true /\
+  shape_ok_id shipped_env 20 msg_id msg_out = true /\
+  shape_ok_id shipped_env 20 msg_id msg_undeclared = false /\
+  shape_ok_id shipped_env 20 msg_id msg_illtyped = false.
+Proof. exact msg_example. Qed.
